@@ -5,8 +5,10 @@
 //   mesh_driver dfs <depth> <out.ndjson>                      every chain of <= depth operations from every seed
 //   mesh_driver walk <nwalks> <len> <seed> <out.ndjson>       random chains (long histories, slot reuse)
 #include "mesh_probe.hpp"
+#include "shapes.hpp"
 #include <cstdint>
 #include <functional>
+#include <map>
 #include <random>
 
 struct seed_mesh { const char* name; std::vector<double> pos; std::vector<unsigned> tris; };
@@ -142,8 +144,74 @@ static void dfs(const cell_ptr& c, int depth, const local_mesh_refiner& lmr, siz
     }
 }
 
+// ---- "big": the same facts on a mesh with more than 65536 node slots / 131072 faces, where 16- and 32-bit index arithmetic
+// (edge keys built from pairs of node ids, counters, offsets) has room to wrap.  Too large for TLC to re-derive: the driver
+// recomputes the edge-to-face adjacency and closedness from the triangle list with its own code and logs the verdicts.
+static void big_verdicts(cell& c, vj::out& o) {
+    auto& N = cell_tester::nodes(c); auto& F = cell_tester::faces(c);
+    std::map<std::pair<unsigned, unsigned>, int> dir;
+    std::map<std::pair<unsigned, unsigned>, std::vector<unsigned>> und;
+    bool live_ok = true, norepeat = true, nrm_ok = true; size_t nf = 0;
+    for (size_t f = 0; f < F.size(); f++) if (F[f].is_used()) {
+        nf++;
+        auto t = cell_tester::tri(F[f]);
+        for (unsigned x : t) if (x >= N.size() || !N[x].is_used()) live_ok = false;
+        if (t[0] == t[1] || t[1] == t[2] || t[0] == t[2]) norepeat = false;
+        if (!live_ok) continue;
+        for (int k = 0; k < 3; k++) { unsigned a = t[k], b = t[(k + 1) % 3]; dir[{a, b}]++; und[{std::min(a, b), std::max(a, b)}].push_back((unsigned)f); }
+        const vec3 w = (N[t[1]].pos() - N[t[0]].pos()).cross(N[t[2]].pos() - N[t[0]].pos());
+        if (!(w.dot(F[f].get_normal()) > 0.)) nrm_ok = false;
+    }
+    bool closed = true;
+    for (auto& kv : dir) { auto it = dir.find({kv.first.second, kv.first.first}); if (kv.second != 1 || it == dir.end() || it->second != 1) closed = false; }
+    size_t nn = 0; for (auto& n : N) nn += n.is_used();
+    const bool euler = (long)nn - (long)und.size() + (long)nf == 2;
+    // the stored index: exactly the undirected edges of the triangle list, each with its two faces
+    bool index_ok = c.get_edge_set().size() == und.size();
+    for (const edge& e : c.get_edge_set()) {
+        auto it = und.find({std::min(e.n1(), e.n2()), std::max(e.n1(), e.n2())});
+        if (it == und.end() || it->second.size() != 2) { index_ok = false; continue; }
+        long f1 = -1, f2 = -1; try { f1 = e.f1(); f2 = e.f2(); } catch (...) {}
+        const auto& fs = it->second;
+        if (!((f1 == (long)fs[0] && f2 == (long)fs[1]) || (f1 == (long)fs[1] && f2 == (long)fs[0]))) index_ok = false;
+    }
+    o.key("nn").i(nn).key("nf").i(nf).key("ne").i(und.size()).key("nslots").i(N.size());
+    o.key("live_ok").b(live_ok).key("norepeat_ok").b(norepeat).key("closed_ok").b(closed).key("euler_ok").b(euler).key("index_ok").b(index_ok)
+     .key("normals_ok").b(nrm_ok).key("ids_ok").b(cell_tester::ids_ok(c)).key("vol_pos").b(cell_tester::signed_vol6(c) > 0.);
+}
+static int run_big(const char* out_path, int level) {
+    FILE* fo = fopen(out_path, "w");
+    shapes::tmesh m = shapes::sphere(level);
+    for (size_t i = 0; i < m.pos.size(); i++) m.pos[i] *= (i % 3 == 0 ? 1.3 : i % 3 == 1 ? 1.0 : 0.8);      // an ellipsoid: a few longest edges
+    cell_ptr c = std::make_shared<cell>(m.pos, m.tris, 0);
+    auto rec = [&](const char* op, const std::string& threw) {
+        vj::out o; o.obj().key("op").str(op).key("threw").str(threw);
+        big_verdicts(*c, o);
+        o.end_obj(); fprintf(fo, "%s\n", o.text().c_str()); fflush(fo);
+    };
+    std::string threw;
+    try { c->initialize_cell_properties(true); } catch (std::exception& e) { threw = e.what(); }
+    rec("big_init", threw);
+    if (threw.empty()) {
+        // a pass that splits the longest edges only (a few hundred), then a pass that collapses the shortest, then compaction
+        std::vector<double> lens; auto& N = cell_tester::nodes(*c);
+        for (const edge& e : c->get_edge_set()) lens.push_back((N[e.n1()].pos() - N[e.n2()].pos()).norm());
+        std::sort(lens.begin(), lens.end());
+        for (int pass = 0; pass < 2 && threw.empty(); pass++) {
+            const double lmin = pass == 0 ? lens.front() * 0.5 : lens[lens.size() / 400], lmax = pass == 0 ? lens[lens.size() - 1 - lens.size() / 400] : lens.back() * 2.1;
+            local_mesh_refiner lmr(lmin, std::max(lmax, 2.05 * lmin), false);
+            try { lmr.refine_mesh(c); } catch (std::exception& e) { threw = e.what(); }
+            rec(pass == 0 ? "big_split_pass" : "big_merge_pass", threw);
+        }
+        if (threw.empty()) { try { c->rebase(); } catch (std::exception& e) { threw = e.what(); } rec("big_rebase", threw); }
+    }
+    fclose(fo);
+    return 0;
+}
+
 int main(int argc, char** argv) {
     setvbuf(stdout, NULL, _IONBF, 0);
+    if (argc >= 3 && std::string(argv[1]) == "big") return run_big(argv[2], argc > 3 ? atoi(argv[3]) : 7);
     if (argc < 4) { fprintf(stderr, "usage: mesh_driver dfs <depth> <out> | walk <n> <len> <seed> <out>\n"); return 2; }
     local_mesh_refiner lmr(0.1, 0.3, true);
     std::string mode = argv[1];
